@@ -5,6 +5,7 @@ Monitor: vf/monitors/physical.py subscribed to the step hook: independent valida
 norm preservation by number-conserving gates; reported probabilities / purity at run end.
 """
 
+import copy
 import time
 
 import numpy as np
@@ -38,10 +39,13 @@ class Monitor:
         self.ctx = ctx
         self.doc = doc
         self.norm_in = {}
+        self.last_step = None
 
     def on_step_pre(self, run, idx, ins, state, shots):
         from vf.monitors import physical as P
 
+        if run.depth == 0:
+            self.last_step = type(ins).__name__
         if run.depth == 0 and state is not None:
             self.norm_in[id(state)] = P.norm_of(state)
 
@@ -64,7 +68,8 @@ class Monitor:
             for suffix, msg in P.check_state(st):
                 ctx.viol("%s:after:%s" % (suffix, name), "%s after instruction %d (%s, modes %s): %s" % (
                     P.kind_of(st), idx, name, tuple(ins.modes), msg), {"doc": self.doc, "index": idx})
-            if name in P.NUMBER_CONSERVING and len(sub) == 1:
+            unitary_here = name in P.NUMBER_CONSERVING or (P.kind_of(st) == "ffock" and not is_meas and name not in P.PREPARATIONS)
+            if unitary_here and len(sub) == 1:
                 n_in = self.norm_in.get(id(state))
                 n_out = P.norm_of(st)
                 if n_in is not None and n_out is not None:
@@ -107,8 +112,16 @@ def run_doc(ctx, pq, doc):
         ctx.c["not_implemented"] += 1
         return
     except Exception as e:
-        # refusals are C13's subject; here only executions that return are monitored
+        # refusals are C13's subject; here only executions that return are monitored - except InvalidState: the library's own
+        # validator refusing the state that a step of a valid program has just produced *is* an unphysical state
         ctx.c["programs_raising"] += 1
+        from piquasso.api.exceptions import InvalidState
+
+        if isinstance(e, InvalidState):
+            last = mon.last_step
+            ctx.viol("state-rejected-by-library-validator:%s:%s" % (doc["sim"], last or "preparation"),
+                     "%s: a step of a valid program (%s) produced a state that the library's validator rejects: %s" % (
+                         doc["sim"], last, str(e)[:300]), {"doc": doc})
         ctx.obs.add("%s program raised %s: %s" % (doc["sim"], type(e).__name__, str(e)[:80]))
         return
     finally:
@@ -241,6 +254,16 @@ def run_shard(spec):
                 d = max(d, 2)
             doc = c13.valid_program(rng, sim, d, int(rng.integers(1, 7)))
             doc["config"]["hbar"] = hbar
+            if rng.random() < 0.35:
+                # the same gate twice in a row: a block that is an isometry on basis states only (e.g. a sign slip in a
+                # 2x2 fermionic squeezing block) first shows on the superposition its own first application creates
+                from vf.monitors import physical as P
+
+                gates = [j for j, g in enumerate(doc["ins"]) if g["t"] not in P.PREPARATIONS and "Measurement" not in g["t"]
+                         and "PostSelect" not in g["t"] and g.get("when") is None]
+                if gates:
+                    j = int(gates[int(rng.integers(0, len(gates)))])
+                    doc["ins"].insert(j + 1, copy.deepcopy(doc["ins"][j]))
         run_doc(ctx, pq, doc)
     from vf.monitors import physical as P
 
